@@ -1,3 +1,4 @@
+#![cfg(all(feature = "builtins", feature = "macros", feature = "multi_template", feature = "adjacent_loop_items", feature = "fuel", feature = "loop_controls"))]
 // Kani harnesses for minijinja/src/vm/loop_object.rs (included under cfg(kani)).
 #![allow(unused_imports)]
 use super::*;
@@ -101,7 +102,7 @@ macro_rules! loopstate_harness {
 
 // @verif-block props=C03 tier=quick cap=400 group=core doc=LoopState::new/next/did_not_iterate_over_exactly_N_items:_length_==_N,_the_k-th_advance_sets_the_position_to_k-1_and_yields_item_k-1,_"did_not_iterate"_holds_after_exhaustion_exactly_for_N==0_(together_with_c01_loop_attrs_any_position,_which_proves_the_attribute_arithmetic_for_EVERY_position_and_length,_this_gives_"loop.*_describes_the_sequence_actually_iterated")
 loopstate_harness!(c03_loopstate_n0, 0);
-loopstate_harness!(c03_loopstate_n1, 1); // cap=900
+loopstate_harness!(c03_loopstate_n1, 1); // tier=thorough cap=3600
 // @verif-end
 
 // @verif props=C01,C03 tier=quick cap=300 group=core fns=Loop::get_value_by_str
